@@ -32,7 +32,7 @@ ASSUMPTIONS = ["process restarts are modelled by destroying the engine and Build
 
 
 def budget(tier):
-    return 12000 if tier == "quick" else 300000
+    return 9000 if tier == "quick" else 300000
 
 
 _LONG = st.integers(200, 70000).map(lambda n: (b"K" + b"x" * n).hex())
